@@ -46,6 +46,10 @@ def Token.isCharData : Token → Bool
   | .cdata _ _ => true
   | _ => false
 
+def Token.isTextTok : Token → Bool
+  | .text _ => true
+  | _ => false
+
 def Token.isDecl : Token → Bool
   | .declaration _ _ _ _ => true
   | _ => false
@@ -67,9 +71,11 @@ def Token.Spelled (src : Str) : Token → Prop
   | _ => True
 
 /-- Consecutive tokens `a b`: a character-data token `b` is never preceded by the XML declaration,
-    and starts where a preceding character-data token's whole span ends. -/
+    starts where a preceding character-data token's whole span ends, and two text tokens never
+    follow each other. -/
 def CharAdj (a b : Token) : Prop :=
-  b.isCharData = true → a.isDecl = false ∧ (a.isCharData = true → a.wholeSpan.stop = b.wholeSpan.start)
+  b.isCharData = true → a.isDecl = false ∧ (a.isCharData = true → a.wholeSpan.stop = b.wholeSpan.start) ∧
+    (a.isTextTok = true → b.isTextTok = false)
 
 /-- `R` holds between every two consecutive tokens. -/
 def AdjChain (R : Token → Token → Prop) : List Token → Prop
